@@ -15,7 +15,7 @@ CLAIMS = {
         text="Static write-set/restore-set analysis: everything one operation step may write (interprocedural, alias "
              "aware) must be restored by RewindScript; history vectors are pushed, popped on failure and restored in "
              "matching sets from the same field; the position counter moves by exactly one; refusals precede mutation. "
-             "These are necessary conditions of 'rewind exactly undoes steps'; equality of continued outcomes is not decided.",
+             "These are necessary conditions of 'rewind exactly undoes steps'; equality of continued outcomes is not decided. Also: every exception type that can escape the operation step is caught around the call by a handler that unconditionally restores and drops the snapshots.",
         technique="interprocedural write-set vs restore-set (dataflow over resolved call graph) + CFG pairing/dominance",
         design="DESIGN.md section 4, C04"),
 }
@@ -33,7 +33,7 @@ CLAIMS["C08"] = dict(
     text="Exception-escape fixpoint (no explicit throw may leave btcdeb's main), stdout effect analysis (only print_stack(raw) may "
          "write stdout on the piped success path; writers are classified by quiet/verbose guards and failure-only continuations and "
          "propagated over the call graph), CFG shape of the piped branch (failure -> stderr + non-zero exit, success -> raw stack + 0) "
-         "and dominance of the quiet&&verbose refusal over all argument parsing. The printed values themselves are not decided.",
+         "and dominance of the quiet&&verbose refusal over all argument parsing. The printed values themselves are not decided. Also: no call site discards the result of ContinueScript / the session stepper / Instance::step.",
     technique="exception-escape and stdout-effect analysis over the resolved call graph + CFG must-pass/dominance",
     design="DESIGN.md section 4, C08")
 
@@ -41,7 +41,7 @@ CLAIMS["C17"] = dict(
     text="Three-way label agreement (disabled-opcode gate == dispatcher case group == StepExtended handlers), exhaustiveness of "
          "parallel opcode arms / nested switches inside multi-label case groups, dominance of a rejecting zero/range test over every "
          "division, modulo and shift by script data, position and control of the gate (before the executed test, DISABLED_OPCODE, only "
-         "-z can open it) and error discipline of StepExtended. What each opcode computes is not decided.",
+         "-z can open it) and error discipline of StepExtended. What each opcode computes is not decided. Third round: the arithmetic opcodes push a value computed from CScriptNum-decoded operands, CAT/AND/OR/XOR push a value that depends on both operands on every successful path, and the bitwise ones succeed only after deciding equal operand lengths (G-SYM terms of StepExtended per opcode).",
     technique="table agreement over resolved enumerators + guard dominance on the CFG",
     design="DESIGN.md section 4, C17")
 
@@ -50,7 +50,7 @@ CLAIMS["C09"] = dict(
          "covered, whole-string lookup), polarity and rejection edges of the +/- parser, and a polarity/purity classification of every "
          "read of the flag word in step-reachable code (each must be one of five restrictive forms F1-F5; the guarded regions are "
          "proved check-only with the write-set engine). Monotonicity then follows under the stated assumption that a region without "
-         "observable writes cannot make a later operation succeed.",
+         "observable writes cannot make a later operation succeed. Every write of the flag word in the driver (plain or compound assignment, ++/--, address-of, non-const reference) is counted: only the parser's result may be stored.",
     technique="table agreement + flag-read polarity classification with interprocedural region purity",
     design="DESIGN.md section 4, C09")
 
@@ -59,16 +59,16 @@ CLAIMS["C01"] = dict(
          "exhaustive dispatch of every opcodetype enumerator, stack-size guard vs actual access depth in every case group "
          "(contradiction rule, incl. error codes and computed depths tested at the same stack height), exception-to-failed-step "
          "conversion, balance check and re-initialisation at every script switch, disabled-opcode gate before the executed test. "
-         "The per-opcode value semantics (what OP_SUB computes) are NOT decided: no second implementation exists to compare with.",
+         "The per-opcode value semantics (what OP_SUB computes) are NOT decided: no second implementation exists to compare with. Also: ConditionStack's members refine the operations of a stack of booleans (case analysis on the position of the first false value, evaluated with G-SYM).",
     technique="enumerator/case-label agreement, guard-vs-access contradiction analysis on the CFG, exception-escape analysis",
     design="DESIGN.md section 4, C01")
 
 CLAIMS["C15"] = dict(
-    text="Eleven exact necessary conditions of crash-freedom over the btcdeb-authored units: the session driver never asserts on session state; the secp256k1 verification context is alive wherever it is used (call-graph rule per tool); no explicit throw leaves an entry point "
+    text="Sixteen exact necessary conditions of crash-freedom over the btcdeb-authored units: the session driver never asserts on session state; the secp256k1 verification context is alive wherever it is used (call-graph rule per tool); no explicit throw leaves an entry point "
          "(mains, kerl callbacks); allocator/deallocator families agree; transaction-derived indices are range-checked before use; "
          "stores into fixed arrays are bounded; a failed fgets buffer is not read; division/shift by script data is guarded; "
          "assert-backed size preconditions are established at every authored call site; `default: assert(0)` of opcode switches is "
-         "unreachable; no iterator into the exec temporary is stored. The universal statement (no UB for every input) is not decided.",
+         "unreachable; no iterator into the exec temporary is stored. The universal statement (no UB for every input) is not decided. Third round: a transaction accepted by parse_transaction has an input (constant-index subscripts depend on it); length-limited writes into local arrays stay inside the array (offset + limit folds to a constant); assert-backed character preconditions hold for every value that reaches them; every recursion cycle of the call graph is a reviewed one with a nesting limit and no variable-length array across the recursive call; a constant subscript is smaller than the size its own path decided.",
     technique="exception-escape analysis, allocation-family provenance, guard dominance and bounded-index patterns on the CFG",
     design="DESIGN.md section 4, C15")
 CLAIMS["C16"] = dict(
@@ -114,7 +114,7 @@ CLAIMS["C13"] = dict(
     text="Writer/reader agreement of the transaction codec as ordered stream-operation sequences on the basic and BIP144 paths, presence "
          "and predicate of the two rejections, txid/wtxid serialisation flags, exception containment and trailing-byte rejection for "
          "malformed input, amount parsing parameters, and the compact-size ladder with canonical-form bounds. Bit-exact round trip and "
-         "field values are not decided.",
+         "field values are not decided. Converting constructors between CTransaction and CMutableTransaction copy every shared data member.",
     technique="reader / writer as item lists over locations per path (G-SYM), rejections from decided conditions, interval ladders, exception escape",
     design="DESIGN.md section 4, C13")
 
@@ -122,7 +122,7 @@ CLAIMS["C05"] = dict(
     text="Sibling cross-check of the step-wise taproot commitment against the batch twin kept from Bitcoin Core and against BIP341 "
          "constants: tagged hashers, leaf stream, node byte-slice (offset as a linear form in the node index), ordering predicate, path "
          "length, internal/output key slices, final CheckTapTweak arguments; the control-size predicate; def-use of the exported leaf "
-         "hash into the signing data; CheckTapTweak hands parity to libsecp. SHA-256 / secp256k1 are trusted.",
+         "hash into the signing data; CheckTapTweak hands parity to libsecp. SHA-256 / secp256k1 are trusted. The stepper's prologue is read per state of Iterate() on G-SYM outcomes (Done exports the derived leaf hash, Failed neither advances nor releases the environment), and a session that was handed the commitment check is not done before its first step.",
     technique="both implementations mapped to Herbrand terms over the same atoms (G-SYM), byte ranges normalised to slice(container, offset, length), sibling agreement",
     design="DESIGN.md section 4, C05")
 
@@ -139,7 +139,7 @@ CLAIMS["C03"] = dict(
          "prevout.n), selection rules (txid equality dominates, --select honoured, refusals), fail-closed hash commitments before the "
          "script to execute is chosen (P2SH-wrapped, v0 script/key hash with the right hash function, v1 commitment construction), "
          "script-switch epilogue, P2SH continuation only for BASE with the flag, and agreement with VerifyWitnessProgram on annex rule, "
-         "validation weight and sizes. That a finished session equals consensus validity is not decided.",
+         "validation weight and sizes. That a finished session equals consensus validity is not decided. Decided on the accepting paths of set-up enumerated by G-SYM (and of the batch twin): a path that returns true has decided the commitment comparison true; a pending commitment keeps the session open; the P2SH mark is cleared on every path that enters the redeem script.",
     technique="subscript role typing, def-use and dominance on the CFG, sibling fact agreement with the batch twin",
     design="DESIGN.md section 4, C03")
 
@@ -149,7 +149,7 @@ CLAIMS["C02"] = dict(
          "equals the stream BIP341/342, BIP143 and the legacy SIGHASH rules prescribe (field names from spec/digests.json; single vs double SHA256 included); "
          "Schnorr size / 0x00 hash-type rules and normalise-in-place are read off the call events per path; the session stepper "
          "keeps opcode_pos like EvalScript; every asserted execdata init flag is set before a taproot/tapscript session; the two ECDSA "
-         "sites and the tapscript signature budget agree with the reference. Signature validity itself (ECDSA/Schnorr, DER) is not decided.",
+         "sites and the tapscript signature budget agree with the reference. Signature validity itself (ECDSA/Schnorr, DER) is not decided. Key-encoding predicates (STRICTENC, WITNESS_PUBKEYTYPE) are tabulated over sizes x first byte against the rule.",
     technique="path-sensitive value numbering (Herbrand terms of the hashed byte stream per path, G-SYM) compared with the BIP terms for every hash type 0..255, must-assign dominance, call-event ordering",
     design="DESIGN.md section 4, C02")
 
